@@ -14,7 +14,7 @@ CHECKS = {
   technique="Lean 4 proof over a model regenerated from source by py2lean (+ translator self-check)"),
  "C01": dict(
   category="proof",
-  text="Lean 4 theorem resume_eq_straight over a model of BasicOperationEngine/SimulationHistory/handlers that is parametric in the play function, the store, the checkpoint type, the clock, the debug view and the hash: for EVERY plan and cut, reload + continue yields the logs of the uninterrupted run; nothing_else_matters: engines with equal logs are bisimilar. The hypothesis StoreLaws (all that influences the future is in the saved store) is validated on the real code: checkpoint round trips of every reached store and every-cut resumed runs (memory and JSON) for all 8 jobs; the model is tied to the engine by replaying it over play tables recorded from real runs.",
+  text="Lean 4 theorem resume_eq_straight over a model of BasicOperationEngine/SimulationHistory/handlers that is parametric in the play function, the store, the checkpoint type, the clock, the debug view and the hash: for EVERY plan and cut, reload + continue yields the logs of the uninterrupted run; nothing_else_matters: engines with equal logs are bisimilar. The hypothesis StoreLaws (all that influences the future is in the saved store) is validated on the real code: checkpoint round trips of every reached store and every-cut resumed runs (memory and JSON) for all 8 jobs; the model is tied to the engine by replaying it over play tables recorded from real runs AND end to end: Model/JobRunner.lean instantiates the parametric engine with a concrete router built from the dispatcher model and all 62 component models, runs whole plans of all eight jobs in Lean and must reproduce the real engine play by play (events and the full store); for that instantiation StoreLaws is proved (C01_Job: job_store_laws, job_resume_eq_straight, job_rollback_replay, job_hint_sound_chain).",
   design_ref="DESIGN.md §4 C01",
   note="Trusted: Lean kernel + standard axioms; hand model tied by recorded-table replay; StoreLaws hypothesis (validated, not proved); pydantic dump/validate and json; unknown command words / ELAPSE without time outside the model.",
   technique="Lean 4 proof (invariant + induction over commands) on a hand-written engine model + differential correspondence"),
@@ -56,7 +56,7 @@ CHECKS = {
   technique="Lean 4 proof (invariant over commands) + router-call observation"),
  "C17": dict(
   category="proof",
-  text="Lean 4 theorems over a star-force model whose tables, star caps, gear type codes and is_* predicates are regenerated from starforce_configuration.py/starforce.py/gear_type.py on every run: every lookup inside the cap is defined and non-negative (decide +kernel over the generated tables), star force is non-negative and non-decreasing in every field for EVERY well-formed gear meta, equals the running sum of per-star increments computed on the gear as enhanced so far, stars beyond the cap are refused; blueprint_additive/order_irrelevant/defined_iff_within_cap for gear blueprints over the generated Stat monoid. Compared with the real code on all shipped gears x stars 0..cap+1 (thorough) and random blueprints; non-mutation of blueprint/base gear observed by snapshot.",
+  text="Lean 4 theorems over a star-force model whose tables, star caps, gear type codes and is_* predicates are regenerated from starforce_configuration.py/starforce.py/gear_type.py on every run: every lookup inside the cap is defined and non-negative (decide +kernel over the generated tables), star force is non-negative and non-decreasing in every field for EVERY well-formed gear meta, equals the running sum of per-star increments computed on the gear as enhanced so far, stars beyond the cap are refused; blueprint_additive/order_irrelevant/defined_iff_within_cap for gear blueprints over the generated Stat monoid, and (C17_Parts) the concrete parts: spell trace tables, scrolls, exceptional enhancement and BonusSpec regenerated from source, spellTrace_defined/nonneg on the five traceable type classes, concrete_blueprint_additive and concrete_blueprint_defined with ALL part contributions computed by the model. Compared with the real code on all shipped gears x stars 0..cap+1 (thorough) and random blueprints; non-mutation of blueprint/base gear observed by snapshot.",
   design_ref="DESIGN.md §4 C17",
   note="Trusted: Lean kernel + standard axioms; py2lean table/predicate extraction (self-checked against live module objects); hand model of providers tied by exhaustive correspondence; part contributions of spell traces/bonus are inputs of the blueprint model.",
   technique="Lean 4 proof over generated tables (decide +kernel lifted) + exhaustive differential correspondence"),
@@ -92,7 +92,7 @@ CHECKS = {
   technique="Lean 4 proof (search invariant + completeness of the recursive search) + differential correspondence"),
  "C19": dict(
   category="proof",
-  text="Lean 4 theorems over a model of StepwizeOptimizer (all step iterators, reward, first strict maximum above -1, iteration guard) for ARBITRARY cost/value functions: within_budget, within_limits, keeps_presets, never_worse (under value monotonicity along tried steps, shown necessary by a counterexample), no_single_step_improves at normal termination, determinism, guard_not_hit, clone_preserves_objective/keeps_armor, and for the weapon-potential brute force weapon_best_partial (maximal among legal combinations of the pruned lists) and weapon_best_of_dominated. Tied to the code by replaying recorded cost/value oracles of real optimizer runs; budgets, limits, presets, armour, single-step optimality and an independent brute force are checked on the real optimizers.",
+  text="Lean 4 theorems over a model of StepwizeOptimizer (all step iterators, reward, first strict maximum above -1, iteration guard) for ARBITRARY cost/value functions: within_budget, within_limits, keeps_presets, never_worse (under value monotonicity along tried steps, shown necessary by a counterexample), no_single_step_improves at normal termination, determinism, guard_not_hit, clone_preserves_objective/keeps_armor, and for the weapon-potential brute force weapon_best_partial (maximal among legal combinations of the pruned lists) and weapon_best_of_dominated. The four REAL targets are inside the model as well (C19_Targets, over cost/stat tables regenerated from system/*.py and data/system/*.yaml): cost monotone/non-negative, budget table monotone, value monotone in every slot (from the C12 damage-factor theorems), which discharges the monotonicity hypothesis of never_worse for the real targets, with the instantiated corollaries. Tied to the code by replaying recorded cost/value oracles of real optimizer runs and by comparing the concrete get_cost/get_value and whole optimizer runs; budgets, limits, presets, armour, single-step optimality and an independent brute force are checked on the real optimizers.",
   design_ref="DESIGN.md §4 C19",
   note="Trusted: Lean kernel + standard axioms; recorded-oracle correspondence; unpruned weapon_best rests on the Dominated hypothesis (checked per run by brute force); float near-ties verified separately.",
   technique="Lean 4 proof (greedy invariants over abstract targets) + recorded-oracle replay"),
